@@ -1,8 +1,10 @@
 """C12 implementation side (real modules through the loader).
 
 modes: tables | helpers (evaluate the real arithmetic helpers on given arguments) | sweep (exhaustive check of
-adjust_cores_for_packability against its integer specification over a range) | select (build the real
-InstanceCollectionConfigs from given pool configurations and run select_inst_coll on given requests)
+adjust_cores_for_packability against its integer specification over a range) | storage_sweep (the real storage rounding
+helpers at all given GiB boundaries, raw results) | select (build the real InstanceCollectionConfigs from given pool
+configurations and run select_inst_coll on given requests; a request may carry its storage as the job-spec STRING
+`storage_str`, which is then read by the real parse_storage_in_bytes as front_end._create_jobs does)
 """
 import hashlib
 import json
@@ -16,6 +18,7 @@ from batch.cloud.gcp import resource_utils as g  # noqa: E402
 from batch.cloud.azure import resource_utils as a  # noqa: E402
 from batch import inst_coll_config as icc  # noqa: E402
 from batch.driver.billing_manager import ProductVersions  # noqa: E402
+from hailtop.batch_client import parse  # noqa: E402
 
 
 def tables():
@@ -50,6 +53,10 @@ def helpers(req):
             out.append(guard(ru.adjust_cores_for_packability, *args))
         elif name == 'storage_gib':          # cloud, bytes, allow_zero
             out.append(guard(ru.requested_storage_bytes_to_actual_storage_gib, *args))
+        elif name == 'round_gib':            # bytes
+            out.append(guard(ru.round_storage_bytes_to_gib, *args))
+        elif name == 'storage_str':          # cloud, request string, allow_zero: the storage path of a job spec
+            out.append(storage_path(*args))
         elif name == 'adjust_mem':           # cloud, worker_type, cores, memory
             cloud, wt, c, m = args
             out.append(guard(g.gcp_adjust_cores_for_memory_request, c, m, g.GCP_MACHINE_FAMILY, wt) if cloud == 'gcp'
@@ -64,6 +71,35 @@ def helpers(req):
             out.append(list(r) if isinstance(r, tuple) else r)
         else:
             raise SystemExit('unknown helper ' + name)
+    return out
+
+
+def storage_path(cloud, string, allow_zero):
+    """what happens to the `storage` string of a job spec: front_end parses it (parse_storage_in_bytes), the instance collection
+    turns the bytes into whole GiB (requested_storage_bytes_to_actual_storage_gib), the worker accepts the GiB
+    (is_valid_storage_request, asserted in Job.__init__) and limits the job's disk to storage_gib_to_bytes(GiB) bytes"""
+    b = guard(parse.parse_storage_in_bytes, string)
+    r = {'bytes': b, 'gib': None, 'quota': None, 'valid': None}
+    if not isinstance(b, int) or isinstance(b, bool):
+        return r
+    gib = guard(ru.requested_storage_bytes_to_actual_storage_gib, cloud, b, allow_zero)
+    r['gib'] = gib
+    if isinstance(gib, int) and not isinstance(gib, bool):
+        r['quota'] = guard(ru.storage_gib_to_bytes, gib)
+        v = guard(ru.is_valid_storage_request, cloud, gib)
+        r['valid'] = v if isinstance(v, str) else bool(gib == 0 or v)
+    return r
+
+
+def storage_sweep(req):
+    """the real rounding helpers at every byte count k * 2^30 + offset (>= 0) of the given k's and offsets, k-major order:
+    raw results only, the plug-in judges them"""
+    gib = 1 << 30
+    bs = [k * gib + off for k in req['ks'] for off in req['offsets'] if k * gib + off >= 0]
+    out = {'n': len(bs), 'round': [guard(ru.round_storage_bytes_to_gib, b) for b in bs]}
+    for cloud in ('gcp', 'azure'):
+        for allow in (True, False):
+            out[f'{cloud}:{int(allow)}'] = [guard(ru.requested_storage_bytes_to_actual_storage_gib, cloud, b, allow) for b in bs]
     return out
 
 
@@ -127,8 +163,14 @@ def select(req):
         icc.possible_cloud_locations = lambda cloud, locs=locs: set(locs)
         res = []
         for r in sc['requests']:
+            storage = r['storage']
+            if r.get('storage_str') is not None:      # front_end._create_jobs: req_storage_bytes = parse_storage_in_bytes(resources['req_storage'])
+                storage = guard(parse.parse_storage_in_bytes, r['storage_str'])
+            if not isinstance(storage, int) or isinstance(storage, bool):
+                res.append({'result': f'storage-string-unparsed:{storage}', 'prices': [], 'storage_bytes': None})
+                continue
             got = guard(configs.select_inst_coll, r['cloud'], r.get('machine_type'), r['label'], r['preemptible'], r.get('worker_type'),
-                        r.get('cores'), r.get('memory'), r['storage'])
+                        r.get('cores'), r.get('memory'), storage)
             if isinstance(got, tuple):
                 got = None if got[0] is None else list(got[0])
             # prices of the candidates, from the real price function, for the model's cheapest-pool choice
@@ -137,13 +179,13 @@ def select(req):
                 for p in pools.values():
                     pr = None
                     if p.cloud == r['cloud'] and p.preemptible == r['preemptible'] and p.label == r['label']:
-                        conv = guard(p.convert_requests_to_resources, r['cores'], r['memory'], r['storage'])
+                        conv = guard(p.convert_requests_to_resources, r['cores'], r['memory'], storage)
                         if isinstance(conv, tuple):
                             pr = guard(lambda: max(p.price_per_hour(configs.resource_rates, configs.product_versions, loc, *conv) for loc in sorted(locs)))
                             if isinstance(pr, str):
                                 pr = None      # the real select raised as well; reported through `result`
                     prices.append(pr)
-            res.append({'result': got, 'prices': prices})
+            res.append({'result': got, 'prices': prices, 'storage_bytes': storage})
         out.append(res)
     return out
 
@@ -157,6 +199,8 @@ def main():
         json.dump({'results': helpers(req)}, sys.stdout)
     elif m == 'sweep':
         json.dump(sweep(req), sys.stdout)
+    elif m == 'storage_sweep':
+        json.dump(storage_sweep(req), sys.stdout)
     elif m == 'select':
         json.dump({'results': select(req)}, sys.stdout)
     else:
